@@ -8,9 +8,10 @@ def extractionErrors : List String := []
 def evaluate : String :=
   String.join [
     "(block (:= (v2 v3 v4) ((call (. (. v0 target) Project)) (call (. (. v0 target) Label)) (call (. (. v0 target) info)))) (= ((. v0 data)) ((call (. v4 stamp)))) (:= (v5) (true)) (:= (v6) ((call (. (. v0 target) dependencies)))) (:= (v7) ((lit (map string string)))) (var (v8) (array _ string) ()) (range v9 v10 (call (. v1 EvaluateTargets) v6 ...) (block (if _ (!= (. v10 Error) nil) (block (typeswitch _ (:= (v11) ((assert (. v10 Error) _))) (case (UnknownTargetError) (call (. (. v2 events) TargetFailed) v3 (call (. fmt Errorf) \"missing dependency: %w\" (. v10 Error)))) (case ((. runner CyclicDependencyError)) (call (. (. v2 events) TargetFailed) v3 v11))) (return (call (. fmt Errorf) \"dependency %v failed\" (index v6 v9)))) _) (:= (v3) ((index v6 v9))) (:= (v12) ((. (assert (. v10 Target) (* run",
-    "Target)) data))) (= ((index v7 v3)) (v12)) (:= (v13 v14) ((index (. v4 Dependencies) v3))) (if _ (|| (|| (u! v14) (. (assert (. v10 Target) (* runTarget)) changed)) (!= v12 v13)) (block (= (v8) ((call append v8 v3))) (= (v5) (false))) _))) (if _ (&& v5 (!= (call len (. v4 Dependencies)) (call len v7))) (block (= (v8) ((call append v8 \"(removed dependencies)\"))) (= (v5) (false))) _) (:= (v15 v16 v17 v11) ((call (. (. v0 target) upToDate)))) (if _ (!= v11 nil) (block (call (. (. v2 events) TargetFailed) v3 v11) (return v11)) _) (if _ (&& (&& (&& (u! (. v2 always)) v5) v15) (u! (. v4 Rerun))) (block (call (. (. v2 events) TargetUpToDate) v3) (return nil)) _) (switch _ _ (case ((u! v15))) (case ((. v2 always)) (= (v16) (\"always\"))) (case ((u! v5)) (= (v16) ((call (. fmt Sprintf) \"out-of-date d",
-    "ependencies: %v\" (call (. strings Join) v8 \", \"))))) (case ((. v4 Rerun)) (= (v16) (\"failed during last run\")))) (call (. (. v2 events) TargetEvaluating) v3 v16 v17) (if _ (. v2 dryrun) (block (= ((. v0 changed)) (true)) (call (. (. v2 events) TargetSucceeded) v3 true) (return nil)) _) (if _ (call IsTarget v3) (block (:= (v18) (v4)) (= ((. v18 Rerun)) (true)) (if (:= (v11) ((call (. v2 saveTargetInfo) v3 v18))) (!= v11 nil) (block (call (. (. v2 events) TargetFailed) v3 v11) (return v11)) _)) _) (call verifPoint \"target.body.before\" (call (. v3 String))) (:= (v19 v20 v11) ((call (. (. v0 target) evaluate)))) (call verifPoint \"target.body.after\" (call (. v3 String))) (if _ (!= v11 nil) (block (call (. (. v2 events) TargetFailed) v3 v11) (call verifPoint \"target.record.failure\" (call (. v3 S",
-    "tring))) (call (. v2 saveTargetInfo) v3 (lit targetInfo (kv Doc (call (. (. v0 target) Doc))) (kv Dependencies v7) (kv Rerun true) (kv Runs (. v4 Runs)))) (return v11)) _) (:= (v21) ((lit targetInfo (kv Doc (call (. (. v0 target) Doc))) (kv Dependencies v7) (kv Data (. v4 Data)) (kv Runs (. v4 Runs))))) (= ((. v0 changed)) (v20)) (if _ v20 (block (= ((. v21 Data)) (v19)) (if _ (call IsTarget v3) (block (++ (. v21 Runs))) _)) _) (= ((. v0 data)) ((call (. v21 stamp)))) (call verifPoint \"target.record.success\" (call (. v3 String))) (= (v11) ((call (. v2 saveTargetInfo) v3 v21))) (if _ (!= v11 nil) (block (call (. (. v2 events) TargetFailed) v3 v11) (return v11)) _) (call (. (. v2 events) TargetSucceeded) v3 v20) (return nil))"]
+    "Target)) data))) (= ((index v7 v3)) (v12)) (:= (v13 v14) ((index (. v4 Dependencies) v3))) (if _ (|| (|| (u! v14) (. (assert (. v10 Target) (* runTarget)) changed)) (!= v12 v13)) (block (= (v8) ((call append v8 v3))) (= (v5) (false))) _))) (if _ (&& v5 (!= (call len (. v4 Dependencies)) (call len v7))) (block (= (v8) ((call append v8 \"(removed dependencies)\"))) (= (v5) (false))) _) (:= (v15) (\"\")) (if (:= (v16 v14) ((assert (. v0 target) (* function)))) v14 (block (= (v15) ((call (. v16 attrs)))) (if _ (&& (&& v5 (!= (. v4 Attrs) \"\")) (!= (. v4 Attrs) v15)) (block (= (v8) ((call append v8 \"(order of dependencies, sources or generated files)\"))) (= (v5) (false))) _)) _) (:= (v17 v18 v19 v11) ((call (. (. v0 target) upToDate)))) (if _ (!= v11 nil) (block (call (. (. v2 events) TargetFailed) ",
+    "v3 v11) (return v11)) _) (if _ (&& (&& (&& (u! (. v2 always)) v5) v17) (u! (. v4 Rerun))) (block (call (. (. v2 events) TargetUpToDate) v3) (return nil)) _) (switch _ _ (case ((u! v17))) (case ((. v2 always)) (= (v18) (\"always\"))) (case ((u! v5)) (= (v18) ((call (. fmt Sprintf) \"out-of-date dependencies: %v\" (call (. strings Join) v8 \", \"))))) (case ((. v4 Rerun)) (= (v18) (\"failed during last run\")))) (call (. (. v2 events) TargetEvaluating) v3 v18 v19) (if _ (. v2 dryrun) (block (= ((. v0 changed)) (true)) (call (. (. v2 events) TargetSucceeded) v3 true) (return nil)) _) (if _ (call IsTarget v3) (block (:= (v20) (v4)) (= ((. v20 Rerun)) (true)) (if (:= (v11) ((call (. v2 saveTargetInfo) v3 v20))) (!= v11 nil) (block (call (. (. v2 events) TargetFailed) v3 v11) (return v11)) _)) _) (call ",
+    "verifPoint \"target.body.before\" (call (. v3 String))) (:= (v21 v22 v11) ((call (. (. v0 target) evaluate)))) (call verifPoint \"target.body.after\" (call (. v3 String))) (if _ (!= v11 nil) (block (call (. (. v2 events) TargetFailed) v3 v11) (call verifPoint \"target.record.failure\" (call (. v3 String))) (call (. v2 saveTargetInfo) v3 (lit targetInfo (kv Doc (call (. (. v0 target) Doc))) (kv Dependencies v7) (kv Rerun true) (kv Runs (. v4 Runs)))) (return v11)) _) (:= (v23) ((lit targetInfo (kv Doc (call (. (. v0 target) Doc))) (kv Dependencies v7) (kv Data (. v4 Data)) (kv Runs (. v4 Runs)) (kv Attrs v15)))) (= ((. v0 changed)) (v22)) (if _ v22 (block (= ((. v23 Data)) (v21)) (if _ (call IsTarget v3) (block (++ (. v23 Runs))) _)) _) (= ((. v0 data)) ((call (. v23 stamp)))) (call verifPoint \"t",
+    "arget.record.success\" (call (. v3 String))) (= (v11) ((call (. v2 saveTargetInfo) v3 v23))) (if _ (!= v11 nil) (block (call (. (. v2 events) TargetFailed) v3 v11) (return v11)) _) (call (. (. v2 events) TargetSucceeded) v3 v22) (return nil))"]
 
 def fnUpToDate : String :=
   "(block (if _ (!= v3 nil) (block (return false \"\" nil (call (. fmt Errorf) \"computing function environment: %w\" v3))) _) (if _ (. v0 always) (block (= ((. (. v0 targetInfo) Rerun)) (true)) (return true \"\" nil nil)) _) (:= (v4 v5 v6 v3) ((call (. v0 diffEnv)))) (if _ (|| (!= v3 nil) (u! v4)) (block (return false v5 v6 v3)) _) (range _ v7 (. v0 gens) (block (if (= (_ v3) ((call (. os Stat) v7))) (!= v3 nil) (block (if _ (call (. os IsNotExist) v3) (block (return false v5 nil nil)) _) (return false \"\" nil (call (. fmt Errorf) \"checking generated files: %w\" v3))) _))) (return true \"\" nil nil))"
@@ -102,11 +103,14 @@ def depStampsMarshal : String :=
 def depStampsUnmarshal : String :=
   "(block (var (v2) (map string string) ()) (if (:= (v3) ((call (. json Unmarshal) v1 (u& v2)))) (!= v3 nil) (block (return v3)) _) (if _ (== v2 nil) (block (= ((* v0)) (nil)) (return nil)) _) (= ((* v0)) ((call make depStamps (call len v2)))) (range v4 v5 v2 (block (= ((index (* v0) (call unescapeLabel v4))) (v5)))) (return nil))"
 
+def fnAttrs : String :=
+  "(block (:= (v1) ((call (. sha256 New)))) (call (. fmt Fprintf) v1 \"%q %d\" (. v0 deps) (call len (. v0 sources))) (range _ v2 (. v0 gens) (block (call (. fmt Fprintf) v1 \" %q\" (call (. strings TrimPrefix) v2 (. (. v0 proj) root))))) (return (call (. hex EncodeToString) (call (. v1 Sum) nil))))"
+
 def dependenciesType : String :=
   "depStamps"
 
 def targetInfoFields : List (String × String) :=
-  [("Doc", "doc,omitempty"), ("Dependencies", "dependencies,omitempty"), ("Data", "stamp,omitempty"), ("Rerun", "rerun,omitempty"), ("Runs", "runs,omitempty")]
+  [("Doc", "doc,omitempty"), ("Dependencies", "dependencies,omitempty"), ("Data", "stamp,omitempty"), ("Rerun", "rerun,omitempty"), ("Runs", "runs,omitempty"), ("Attrs", "attrs,omitempty")]
 
 def pathLiterals : List String :=
   ["", "target", "", "BUILD.dawn", "/", "s"]
